@@ -150,6 +150,7 @@ func checkC17(R *Run) {
 				normLookup = strings.ReplaceAll(keyLookup, "param:"+addrParam.Name(), "ADDR")
 			}
 			want := `strings.Split(ADDR,":")[0]`
+			normLookup = hostPartNorm(normLookup)
 			R.check(normLookup == want, "ban-key-agree", fname(fn)+": IsBanned key", P.ipos(isBanned), "key = Split(remote address, \":\")[0]", "the looked-up ban key is "+keyLookup+", not strings.Split(remoteAddr, \":\")[0]")
 			// the address parameter is what ends up in ClientConn.RemoteAddr
 			stored := false
@@ -208,7 +209,7 @@ func checkC17(R *Run) {
 			key := P.sym(args[0])
 			norm := stripRecv(key)
 			norm = strings.ReplaceAll(norm, "field:hotline.ClientConn.RemoteAddr", "ADDR")
-			okKey := norm == `strings.Split(ADDR,":")[0]`
+			okKey := hostPartNorm(norm) == `strings.Split(ADDR,":")[0]`
 			// receiver of RemoteAddr is the disconnected target
 			sameTarget := false
 			F := &Flow{P: P, Visit: func(x ssa.Value) bool {
@@ -985,4 +986,14 @@ func (P *Prog) tableFuncExpiry(h *ssa.Function, add ssa.CallInstruction, until s
 		return true, fmt.Sprintf("table %s: option 1 → %s() = now+BanDuration, option 2 → %s() = nil; other options not in the table", g.Name(), name, name)
 	}
 	return false, ""
+}
+
+
+// hostPartNorm: the text before the first ":" written with strings.Cut is the same value as strings.Split(x, ":")[0].
+func hostPartNorm(s string) string {
+	const pre, suf = `strings.Cut(`, `,":")#0`
+	if strings.HasPrefix(s, pre) && strings.HasSuffix(s, suf) {
+		return `strings.Split(` + s[len(pre):len(s)-len(suf)] + `,":")[0]`
+	}
+	return s
 }
